@@ -16,7 +16,7 @@ def run(tier, replay=None):
     res.rule = ('configurations (read/write, container 4 KiB..1 MiB, object size C/8 or C/3, shipped limits or hook-set buffer/queue) each run '
                 'for N0, 4*N0, 16*N0 containers (N0 = smallest N that saturates the pipeline); read sessions starve the application thread, '
                 'write sessions starve the compressed worker (schedule controller), held bytes sampled via verifHeld() after every k-th '
-                'object; oracles: held <= max(B,S)+2C (read) / +3C (write) at every sample, peak heap flat in N beyond saturation (difference <= C + 64 KiB), '
+                'object; oracles: held <= max(B,S)+2C (read) / +3C (write) at every sample, peak heap flat in N beyond saturation (difference between 4*N0 and 16*N0 containers <= the legitimate dynamic range 2(max(B,S)+2C)+2C+(Q+1)S+64 KiB), '
                 'heap returns to baseline; distinct = configurations')
     res.samples = st.get('samples', [])[:8]
     res.extra = dict(held_samples=st.get('held_samples', 0), quiescent_samples=st.get('quiescent_samples', 0), flatness_comparisons=st.get('flatness_comparisons', 0),
